@@ -297,7 +297,7 @@ impl Property for Wrap {
     fn budget(&self, tier: Tier) -> Budget {
         Budget {
             cases: tier.pick(300_000, 40_000_000),
-            tape_len: 600,
+            tape_len: 2000,
         }
     }
     fn decode(&self, t: &mut Tape<'_>) -> WrapCase {
@@ -397,7 +397,7 @@ impl Property for PublicPath {
     fn budget(&self, tier: Tier) -> Budget {
         Budget {
             cases: tier.pick(40_000, 2_000_000),
-            tape_len: 600,
+            tape_len: 2000,
         }
     }
     fn decode(&self, t: &mut Tape<'_>) -> WrapCase {
